@@ -329,5 +329,5 @@ def run(ctx):
     from .. import ffi
     ffi.rule_sig(ctx, "C13.FFI", only={"mesh_state", "mesh_chstt"})
     from .. import lints
-    lints.run(ctx, "C13", ctx.py, ["rdsystem", "value_processing"], truth_floor=30)
+    lints.run(ctx, "C13", ctx.py, ["rdsystem", "value_processing", "rdnetwork", "rdgridspace", "rdgraphspace"], truth_floor=30)
     ctx.assume("the values themselves are not decided; environment indices are range-checked by C20.EXTIDX")
